@@ -18,7 +18,7 @@ mapped A followed by the filtered, mapped f-images of B.  Whatever is not recogn
 does not relate simply compare unequal - never equal by accident.
 """
 from . import sym
-from .leaves import (norm, replace, strip_acc, cond_tests, pat_tests, parse_pat, negate, leaves as _decision_leaves, _apply, lift_proj)
+from .leaves import (norm, replace, strip_acc, cond_tests, pat_tests, parse_pat, negate, leaves as _decision_leaves, _apply, lift_proj, stable_key)
 
 ADD_ONE = {"push", "insert", "push_back", "insert_full"}
 ADD_MANY = {"extend", "append", "extend_from_slice"}
@@ -244,7 +244,7 @@ def _bool_tests(c, pol):
             return []
         if len(paths) == 1:
             return list(paths[0])
-        return [("or", tuple(sorted(set(paths), key=repr)))]
+        return [("or", tuple(sorted(set(paths), key=stable_key)))]
     return cond_tests(c, pol)
 
 
@@ -325,7 +325,7 @@ def _group(src, alts):
     """one loop over src: per element, the guarded additions in program order - in one fixed order when no two of them can happen together"""
     alts = list(alts)
     if len(alts) > 1 and all(_exclusive(a[0], b[0]) for i, a in enumerate(alts) for b in alts[i + 1:]):
-        alts.sort(key=repr)
+        alts.sort(key=stable_key)
     return (tuple(src), tuple(alts))
 
 
@@ -397,7 +397,17 @@ def _expand_batch(adds, ctx_src, ctx_tests, depth):
         if kind == "one":
             alts += _split_decision(ft, term)
         elif ctx_src:
-            alts.append((ft, ("splice", canon(term))))
+            # `for x in L { out.extend(F(x)) }` is `L.flat_map(F)`: a nested loop over F(x)
+            if alts:
+                groups.append(_group(ctx_src, alts))
+                alts = []
+            for s2, a2 in coll_src(term, depth + 1):
+                a3 = []
+                for t2, e2 in a2:
+                    f2 = _finish_tests(list(ft) + list(t2))
+                    if f2 is not None:
+                        a3.append((f2, e2))
+                groups.append(_group(ctx_src + tuple(x for x in s2 if x not in ctx_src), a3))
         else:
             # a whole collection appended outside any loop: its groups follow, each under the conditions of the append
             if alts:
@@ -436,6 +446,13 @@ def coll(t, depth=0):
         n, a = t[1], t[2]
         if n in PASS and len(a) >= 1:
             return coll(a[0], depth)
+        if n == "iter::once" and len(a) == 1:
+            return [_group((), [(frozenset(), canon(a[0]))])]
+        if n == "iter::empty" and not a:
+            return []
+        if n in ("Option::into_iter", "Option::iter") and len(a) == 1:
+            o = canon(a[0])
+            return [_group((), [(frozenset({("is", o, "Option::Some")}), canon(("proj", o, (("Option::Some", "0"),))))])]
         if n == "Iterator::chain" and len(a) == 2:
             return list(coll_src(a[0], depth + 1)) + list(coll_src(a[1], depth + 1))
         if n in KEYS and len(a) == 1:
@@ -524,7 +541,7 @@ def show(groups, indent="  "):
     for s, alts in groups:
         out.append("%sfor %s" % (indent, " x ".join(sym.pretty(x, width=200) for x in s) or "(one)"))
         for ts, e in alts:
-            for t in sorted(ts, key=repr):
+            for t in sorted(ts, key=stable_key):
                 out.append("%s  if %s" % (indent, sym.pretty(t, width=200)))
             out.append("%s  -> %s" % (indent, sym.pretty(e, width=200)))
     return "\n".join(out)
